@@ -26,7 +26,9 @@ RULE = ('1-5 tasks (PickleCache and a custom two-file BaseCache format, dependen
         'Lab, or a FRESH INTERPRETER started with a different PYTHONHASHSEED; in some cases the Lab is given a relative storage path and '
         'the caller changes its working directory between the runs. Oracle: after run 1 is_cached(t) for every task and '
         'the set of key directories == {cache_key(t)}; run 2 returns values equal to run 1\'s with zero run() records, and every '
-        'requested instance\'s result_meta == run 1\'s (start, duration). Engine "roundtrip": Cache.save / load_result_with_meta '
+        'requested instance\'s result_meta == run 1\'s (start, duration) AND == the (start, duration) read from the entry\'s metadata.json without '
+        'labtech; in a third of the cases the same objects are re-executed with bust_cache=True in between (every entry and its meta is replaced; '
+        'the later hit must carry the replaced meta). Engine "roundtrip": Cache.save / load_result_with_meta '
         'directly with generated ResultMeta (naive datetimes at microsecond resolution, durations 0..10 days). Non-trivial = >= 2 '
         'cacheable tasks with different values AND a second run in a different process or backend. Distinct = hash of spec.')
 ASSUMPTIONS = ['values are compared with ==; stored values are distinct by construction so a foreign entry is visible']
@@ -76,8 +78,26 @@ def check_rerun(spec: dict) -> core.CaseResult:
         want_keys = sorted(t.cache_key for t in ran)
         if keys != want_keys:
             findings.append(core.Finding('C06:key-directories-differ-from-the-executed-tasks-keys', f'{keys} vs {want_keys}'))
-        # ---- second run
+        # ---- optional history step: the same objects are executed again with bust_cache=True, which replaces every entry (and its
+        # recorded start/duration); the later cache hit must then carry the REPLACED entry's meta
         mode = spec['second']
+        if spec.get('rewrite') and mode != 'fresh_interpreter' and not relative:
+            os.environ['VERIF_OBS_DIR'] = os.path.join(d, 'obs1')
+            try:
+                res1 = lab1.run_tasks(requested, bust_cache=True, disable_progress=True, disable_top=True)
+            except Exception as ex:
+                return core.CaseResult(findings=[core.Finding(f'C06:bust_cache-run-raised:{type(ex).__name__}', repr(ex)[:300])])
+            stored = _stored_meta(store, requested)
+            for t in requested:
+                if type(t).__name__ != 'RZ' and t.cache_key in stored and _meta_tuple(t.result_meta) != stored[t.cache_key]:
+                    findings.append(core.Finding('C06:result_meta-after-re-execution-is-not-the-one-stored-with-the-result',
+                                                 f'{t.name}: {t.result_meta} vs stored {stored[t.cache_key]}'))
+            meta1 = {idx1[id(t)]: t.result_meta for t in requested}
+            if mode == 'new_lab':
+                # the expectation for fresh objects comes from the store itself
+                from labtech.types import ResultMeta
+                meta1 = {idx1[id(t)]: (ResultMeta(start=stored[t.cache_key][0], duration=stored[t.cache_key][1]) if t.cache_key in stored else t.result_meta)
+                         for t in requested}
         if mode == 'fresh_interpreter':
             case = {**spec, 'storage': store, 'obs_dir': obs2, 'backend': spec['b2']}
             cf = os.path.join(d, 'case.json')
@@ -137,6 +157,13 @@ def check_rerun(spec: dict) -> core.CaseResult:
                                                  f'{t.name}: {str(res2[i])[:120]} vs {str(v)[:120]}'))
                 if type(t).__name__ != 'RZ' and (meta2.get(i) != meta1[i] or meta1[i] is None):
                     findings.append(core.Finding('C06:result_meta-differs-from-the-recorded-one', f'{t.name}: {meta2.get(i)} vs {meta1[i]}'))
+        if mode != 'fresh_interpreter' and res2 and not relative:
+            # independent of what the first run left on the objects: the entry's own metadata file
+            stored = _stored_meta(store, req2)
+            for t in req2:
+                if type(t).__name__ != 'RZ' and t.cache_key in stored and _meta_tuple(t.result_meta) != stored[t.cache_key]:
+                    findings.append(core.Finding('C06:result_meta-after-a-cache-hit-is-not-the-one-stored-with-the-result',
+                                                 f'{t.name}: {t.result_meta} vs stored {stored[t.cache_key]}'))
         req_uncached = {tasks[i].name for i in spec['requested'] if spec['nodes'][i]['type'] == 'RZ'}
         s2 = [r[1] for r in vu.read_trace(obs2) if r[0] == 'S' and not (r[5] == 'RZ' and r[1] in req_uncached)]
         if s2:
@@ -155,9 +182,27 @@ def check_rerun(spec: dict) -> core.CaseResult:
     seen = set()
     findings = [f for f in findings if not (f.signature in seen or seen.add(f.signature))]
     nt = len(closure) >= 2 and (spec['second'] == 'fresh_interpreter' or spec['b1'] != spec['b2'] or spec['b2'] != 'serial')
-    labels = (f'b1={spec["b1"]}', f'b2={spec["b2"]}', f'second={spec["second"]}',
+    labels = (f'b1={spec["b1"]}', f'b2={spec["b2"]}', f'second={spec["second"]}', f'rewrite={bool(spec.get("rewrite"))}',
               'multi_frame_result' if 'bytes\', 70000' in str(spec) or '150000' in str(spec) or '300000' in str(spec) else 'small_results')
     return core.CaseResult(findings=findings, nontrivial=nt, labels=labels, summary=summary)
+
+
+def _meta_tuple(m):
+    return None if m is None else (m.start, m.duration)
+
+
+def _stored_meta(store: str, tasks) -> dict:
+    """(start, duration) as recorded in each entry's metadata.json - read without labtech. Entries in another layout are skipped."""
+    import datetime
+    out = {}
+    for t in tasks:
+        try:
+            with open(os.path.join(store, t.cache_key, 'metadata.json')) as f:
+                m = json.load(f)
+            out[t.cache_key] = (datetime.datetime.fromisoformat(m['start_timestamp']), datetime.timedelta(seconds=m['duration_seconds']))
+        except Exception:
+            continue
+    return out
 
 
 def check_roundtrip(spec: dict) -> core.CaseResult:
@@ -276,7 +321,8 @@ def rerun_spec(draw, backends, fresh_rate: int):
     requested = list(dict.fromkeys(requested))
     second = 'fresh_interpreter' if draw(st.integers(0, 99)) < fresh_rate else draw(st.sampled_from(['same_lab', 'new_lab']))
     return {'nodes': nodes, 'requested': requested, 'b1': draw(st.sampled_from(backends)), 'b2': draw(st.sampled_from(backends)),
-            'second': second, 'hashseed2': draw(st.integers(1, 4000)), 'relative_storage': draw(st.integers(0, 4)) == 0}
+            'second': second, 'hashseed2': draw(st.integers(1, 4000)), 'relative_storage': draw(st.integers(0, 4)) == 0,
+            'rewrite': draw(st.integers(0, 2)) == 0}
 
 
 def plan(tier: str) -> list[dict]:
